@@ -368,7 +368,7 @@ Section Refine.
   Qed.
 
   Lemma iloop_ok cnt : forall w st i,
-    repr w (snd st) -> 0 < i -> i + cnt = n ->
+    repr w (snd st) -> 0 < i -> i + cnt <= n ->
     exists w', iloop cnt grid a (N.of_nat i) (N.of_nat n) (N.of_nat md) (fst st, w)
                = Ok (fst (iloopF grid a md cnt i st), w') /\
                repr w' (snd (iloopF grid a md cnt i st)).
@@ -404,11 +404,14 @@ Section Refine.
     rewrite Hidx in H. injection H as ->. apply HP; auto.
   Qed.
 
-  (* generate_fdiff_weights_vector stays inside its arrays and computes [fdiffF] *)
-  Theorem fdiff_refines :
-    exists w, fdiff grid (N.of_nat md) a = Ok w /\ repr w (fdiffF grid a md).
+  (* the first [stages] rounds stay inside the arrays and compute [iloopF stages] *)
+  Theorem fdiff_stages_refines stages :
+    stages < n ->
+    exists w, fdiff_stages stages grid (N.of_nat md) a
+              = Ok (fst (iloopF grid a md stages 1 (initF grid a)), w) /\
+              repr w (snd (iloopF grid a md stages 1 (initF grid a))).
   Proof.
-    unfold fdiff. fold n.
+    intros Hst. unfold fdiff_stages. fold n.
     pose proof n_lt. pose proof md_lt. pose proof lenw_lt as L.
     assert (E0 : u32 (N.of_nat n) = N.of_nat n) by (unfold u32; apply N.mod_small; auto).
     rewrite E0.
@@ -427,12 +430,22 @@ Section Refine.
       - rewrite nth_error_upd_neq by nia. apply nth_error_repeat. lia.
       - rewrite nth_error_upd_neq by nia. apply nth_error_repeat. lia. }
     change 1%N with (N.of_nat 1).
-    destruct (iloop_ok (n - 1) _ (qc1, Qcminus (gpt grid 0) a, F0) 1 R0 ltac:(lia) ltac:(lia))
+    destruct (iloop_ok stages _ (qc1, Qcminus (gpt grid 0) a, F0) 1 R0 ltac:(lia) ltac:(lia))
       as [w1 [E2 R2]].
-    cbn [fst] in E2. rewrite E2. cbn [bind].
-    unfold fdiffF, initF. fold n.
-    destruct (iloopF grid a md (n - 1) 1 (qc1, Qcminus (gpt grid 0) a, F0)) as [[c1 c4] F'].
-    cbn [fst snd] in *. exists w1. split; [reflexivity | exact R2].
+    cbn [fst] in E2. exists w1. split; [exact E2 | exact R2].
+  Qed.
+
+  (* generate_fdiff_weights_vector stays inside its arrays and computes [fdiffF] *)
+  Theorem fdiff_refines :
+    exists w, fdiff grid (N.of_nat md) a = Ok w /\ repr w (fdiffF grid a md).
+  Proof.
+    unfold fdiff. fold n. pose proof n_lt.
+    assert (E0 : u32 (N.of_nat n) = N.of_nat n) by (unfold u32; apply N.mod_small; auto).
+    rewrite E0, Nat2N.id.
+    destruct (fdiff_stages_refines (n - 1) ltac:(lia)) as [w [E R]].
+    rewrite E. cbn [bind]. unfold fdiffF. fold n.
+    destruct (iloopF grid a md (n - 1) 1 (initF grid a)) as [[c1 c4] F'].
+    cbn [fst snd] in *. exists w. split; [reflexivity | exact R].
   Qed.
 End Refine.
 
@@ -457,4 +470,37 @@ Proof.
   intros G. destruct (guard_sizeP _ _ G) as [Hn Hsz].
   destruct (fdiff_refines grid a (N.to_nat max_deriv) Hn Hsz) as [w [E [L _]]].
   rewrite N2Nat.id in E. exists w. split; auto.
+Qed.
+
+(* ---------- the boolean distinctness guard ---------- *)
+Lemma qc_eqb_eq x y : qc_eqb x y = true <-> x = y.
+Proof.
+  unfold qc_eqb. split.
+  - intros H. apply andb_prop in H. destruct H as [H1 H2].
+    apply Z.eqb_eq in H1. apply Pos.eqb_eq in H2.
+    apply Qc_is_canon. unfold Qeq. rewrite H1, H2. reflexivity.
+  - intros ->. rewrite Z.eqb_refl, Pos.eqb_refl. reflexivity.
+Qed.
+
+Lemma qc_mem_In x l : qc_mem x l = true <-> In x l.
+Proof.
+  induction l as [|y l IH]; simpl.
+  - split; [discriminate | tauto].
+  - destruct (qc_eqb x y) eqn:E.
+    + apply qc_eqb_eq in E. subst. tauto.
+    + rewrite IH. split; auto. intros [H|H]; auto.
+      subst. assert (qc_eqb x x = true) by (apply qc_eqb_eq; auto). congruence.
+Qed.
+
+Lemma qc_distinct_NoDup l : qc_distinct l = true <-> NoDup l.
+Proof.
+  induction l as [|x l IH]; simpl.
+  - split; auto. constructor.
+  - split.
+    + intros H. apply andb_prop in H. destruct H as [H1 H2]. constructor.
+      * intro Hin. apply qc_mem_In in Hin. rewrite Hin in H1. discriminate.
+      * apply IH. auto.
+    + intros H. inversion H; subst. apply andb_true_intro. split.
+      * destruct (qc_mem x l) eqn:E; auto. apply qc_mem_In in E. contradiction.
+      * apply IH. auto.
 Qed.
